@@ -3,7 +3,7 @@ import itertools, json
 from fractions import Fraction
 import numpy as np
 from harness import votelib as V, eliclib as E, assignlib as A
-from harness.common import pmap, lean_query, guard, fr, to_np, safe_judge
+from harness.common import pmap, lean_query, guard, fr, to_np, safe_judge, persist, persist_rule
 from harness.c01 import chunks
 
 LEVEL = "proof"
@@ -23,17 +23,17 @@ def impl_batch(case):
         try:
             P, vals, k = it["P"], it["vals"], it["k"]
             prof = E.profile_of(P)
-            vp = ValuationProfile.of(to_np(vals))
+            vp = persist("vals", to_np(vals), ValuationProfile.of)
             res = {"karv": {}}
             for tb in ("accept", "first", "random"):
                 np.random.seed(it["seed"])
-                w = KARV(k=k, tie_breaker=tb, zero_indexed=False).scf(prof, ValuationProfileElicitor(vp))
+                w = persist_rule(("karv", k, tb, False), lambda: KARV(k=k, tie_breaker=tb, zero_indexed=False)).scf(prof, ValuationProfileElicitor(vp))
                 res["karv"][tb] = [int(x) for x in np.atleast_1d(w)]
             wa = np.array(res["karv"]["accept"])
             res["dist_many"] = float(distortion(wa, vp))
             res["dist_one"] = float(distortion(int(wa[0]), vp))
             if it.get("tsf"):
-                a = LambdaTSF(lambda_=k, zero_indexed=True).scf(prof, ValuationProfileElicitor(vp))
+                a = persist_rule(("tsf", k, True), lambda: LambdaTSF(lambda_=k, zero_indexed=True)).scf(prof, ValuationProfileElicitor(vp))
                 res["tsf"] = [int(x) for x in a]
             if it.get("nanvals"):
                 vpn = ValuationProfile.of(to_np(it["nanvals"]))
